@@ -723,6 +723,14 @@ class TrajectoryStore:
                 'Cannot add trajectory to TrajectoryStore not opened in write mode'
             )
 
+        # A store linked to NetCDF files has its field sets fixed by those
+        # files, whether or not a trajectory happens to be cached (at the start
+        # of an append session nothing is).
+        if self.nc_linked and trajectory._fieldsets != set(self._nc.keys()):
+            raise ValueError(
+                'All trajectories in a TrajectoryStore must have the same data fields'
+            )
+
         # As soon as we've added one trajectory to the store, we have fixed the
         # data schema, which we check for each new trajectory.
         if len(self._trajectories) > 0:
